@@ -223,13 +223,16 @@ pub fn run<'i>(p: &Prog, env: &[Prog], s: St<'i>, o: &Obs<'i>) -> ParseResult<St
             // the stack readers, read directly from their documentation: they match the text of the top entry (PEEK, POP) or of
             // all entries from the top down (PEEK_ALL, POP_ALL) at the position, advance over exactly that text on success and do
             // not move on failure; DROP never moves
-            let before = snap_of(&s.verif_snapshot());
+            let before_line = s.verif_snapshot();
+            // (PEEK and POP are counted calls: under a call limit they may be refused, which is C12's subject, not a contract of this list)
+            let unlimited = before_line.contains(" calls=-1");
+            let before = snap_of(&before_line);
             let elems: Vec<String> = before.stack.split(' ').filter(|x| !x.is_empty()).map(|h| crate::unhexs(h).unwrap()).collect();
             let (name, whole) = match p { Peek => ("stack_peek", false), Pop => ("stack_pop", false), MPeek => ("stack_match_peek", true), MPop => ("stack_match_pop", true), _ => ("stack_drop", false) };
             let drop = matches!(p, Drop);
             let r = match p { Peek => s.stack_peek(), Pop => s.stack_pop(), MPeek => s.stack_match_peek(), MPop => s.stack_match_pop(), _ => s.stack_drop() };
             let text: Option<String> = if drop { if elems.is_empty() { None } else { Some(String::new()) } } else if whole { Some(elems.iter().rev().cloned().collect()) } else { elems.last().cloned() };
-            if let Some(t) = text {   // (PEEK / POP on an empty stack panic: not a contract of this list)
+            if let (Some(t), true) = (text, unlimited) {   // (PEEK / POP on an empty stack panic: not a contract of this list)
                 let want = o.input[before.pos..].starts_with(t.as_str());
                 check_prim(o, name, before.pos, want, t.len(), &r);
                 let ns = match &r { Result::Ok(ns) => ns, Err(ns) => ns };
